@@ -12,6 +12,7 @@
      W.certs   certificate name -> [key (public key it carries), kl (key locator name | "none"),
                sig (key that made its signature | "forged" | "digest"), serv (yes|nack|timeout|absent)]
      W.pkts    packet name -> [kl, sig]
+     W.epoch   number of Heal steps so far (the set of retrievable certificates changes only there)
      W.sch, W.kt, W.q   labels for the executor (which LVS text / key type materialises the world) and witnesses
    Crypto is abstract: a signature verifies under a certificate iff sig = that certificate's key.
    Names identify certificates (one certificate is served per name).
@@ -28,6 +29,7 @@ EXTENDS Integers, Sequences, FiniteSets, TLC
 
 CONSTANTS Inst,          \* validator instances, e.g. {"v1","v2"}
           MaxVal,        \* number of Validate calls in a behaviour
+          MaxHeal,       \* number of Heal steps (a certificate that could not be fetched becomes retrievable)
           Allowed, Forced,
           WorldSet,      \* the worlds Init may choose (MCWorlds(MaxDepth) or the world of a trace)
           AnchorChoice(_) \* instance -> set of anchor names NewValidator may give it
@@ -84,7 +86,7 @@ ChainDefsAgree == \A a \in {b \in DOMAIN W.certs : W.shape[b] \in W.roots} : \A 
 VerdictIffChain == \A i \in 1..Len(out) : out[i].r # "diverged" => ((out[i].r = "T") <=> out[i].c)
 InstanceIndependent ==
   \A i \in 1..Len(out) : \A j \in 1..Len(out) :
-    (inst[out[i].v].anchor = inst[out[j].v].anchor /\ out[i].p = out[j].p) => out[i].r = out[j].r
+    (inst[out[i].v].anchor = inst[out[j].v].anchor /\ out[i].p = out[j].p /\ out[i].e = out[j].e) => out[i].r = out[j].r
 ConstructorRefuses == \A v \in Inst : inst[v].k # "none" => ((inst[v].k = "refused") <=> ~inst[v].good)
 Terminated == \A i \in 1..Len(out) : out[i].r # "diverged"
 BadNow == (IF VerdictIffChain THEN {} ELSE {"VerdictIffChain"})
@@ -150,6 +152,17 @@ FetchReply(v, kind) ==
   /\ UNCHANGED <<W, inst, cache, wire, out, nval, dev, nodev>>
   /\ Track
 
+\* the network changes between validations: a certificate that was not retrievable (Nack, timeout, absent)
+\* is published. Earlier failures must leave no trace: later verdicts are those of the new world.
+\* (bound: only while no validation is in progress)
+Heal(n) ==
+  /\ Quiescent /\ \A v \in Inst : val[v] = NoVal
+  /\ W.epoch < MaxHeal
+  /\ n \in DOMAIN W.certs /\ W.certs[n].kl # n /\ W.certs[n].serv \in {"nack", "timeout", "absent"}
+  /\ W' = [W EXCEPT !.certs[n].serv = "yes", !.epoch = @ + 1]
+  /\ UNCHANGED <<inst, cache, val, wire, out, nval, dev, nodev>>
+  /\ Track
+
 (* internal steps *)
 \* validate_name: key locator present and the schema allows the link
 CheckSchema(v) ==
@@ -204,7 +217,7 @@ Fetch(v) ==
              /\ onStack /\ "LoopRefetch" \in (Allowed \cup Forced) /\ "LoopRefetch" \notin nodev
              /\ wire' = [wire EXCEPT ![v] = Append(@, n)]
              /\ val' = [val EXCEPT ![v].pc = "diverged"]
-             /\ out' = Append(out, [v |-> v, p |-> val[v].p, r |-> "diverged", c |-> Chain(inst[v].anchor, val[v].p)])
+             /\ out' = Append(out, [v |-> v, p |-> val[v].p, r |-> "diverged", c |-> Chain(inst[v].anchor, val[v].p), e |-> W.epoch])
              /\ dev' = dev \cup {"LoopRefetch"} /\ nodev' = nd0
   /\ UNCHANGED <<W, inst, cache, nval>>
   /\ Track
@@ -232,7 +245,7 @@ VerifySig(v) ==
 Verdict(v) ==
   /\ val[v].k = "run" /\ val[v].pc \in {"accept", "reject"}
   /\ out' = Append(out, [v |-> v, p |-> val[v].p, r |-> IF val[v].pc = "accept" THEN "T" ELSE "F",
-                           c |-> Chain(inst[v].anchor, val[v].p)])
+                           c |-> Chain(inst[v].anchor, val[v].p), e |-> W.epoch])
   /\ val' = [val EXCEPT ![v] = NoVal]
   /\ UNCHANGED <<W, inst, cache, wire, nval, dev, nodev>>
   /\ Track
@@ -245,6 +258,7 @@ NameUniverse == {"RA", "RB", "RAx", "RAf", "RAo", "A1", "A2", "A3", "X", "B1", "
 Env == \/ \E v \in Inst, a \in NameUniverse : NewValidator(v, a)
        \/ \E v \in Inst, p \in NameUniverse : Validate(v, p)
        \/ \E v \in Inst, kind \in {"yes", "nack", "timeout", "absent"} : FetchReply(v, kind)
+       \/ \E n \in NameUniverse : Heal(n)
 Internal == \E v \in Inst : CheckSchema(v) \/ UseAnchor(v) \/ UseCache(v) \/ Fetch(v) \/ VerifySig(v) \/ Verdict(v)
 Next == Env \/ Internal
 Fair == \A v \in Inst : WF_vars(CheckSchema(v) \/ UseAnchor(v) \/ UseCache(v) \/ Fetch(v) \/ VerifySig(v) \/ Verdict(v))
@@ -321,6 +335,7 @@ MCWorld(q) ==
   IN [schema |-> IF peer THEN Peer ELSE Strict,
       roots |-> {"root"},
       kt |-> "ec",
+      epoch |-> 0,
       sch |-> q.sch,
       q |-> q,
       shape |-> [n \in {"RA", "RB", "RAf", "RAo", "RAx", "X", "A1", "A2", "A3", "B1", "P1", "P2", "P3", "none"} |->
@@ -341,6 +356,9 @@ W3 == MCWorlds(3)
 W4 == MCWorlds(4)
 W2 == MCWorlds(2)
 \* small world sets for the executor: learning which deviations the code has, orders of validations
+\* fetch faults that Heal can repair
+WHeal == {MCWorld(q) : q \in {[sch |-> "strict", d |-> 2, dev |-> "nack", i |-> 1], [sch |-> "strict", d |-> 2, dev |-> "timeout", i |-> 1],
+                              [sch |-> "strict", d |-> 2, dev |-> "absent", i |-> 1], [sch |-> "strict", d |-> 3, dev |-> "nack", i |-> 2]}}
 WClean == {MCWorld([sch |-> "strict", d |-> 2, dev |-> "none", i |-> 0])}
 WLoop == {MCWorld([sch |-> "peer", d |-> 2, dev |-> "loop", i |-> 2])}
 WOrd == {MCWorld(q) : q \in {[sch |-> "strict", d |-> 2, dev |-> "none", i |-> 0], [sch |-> "strict", d |-> 3, dev |-> "none", i |-> 0],
@@ -356,5 +374,7 @@ W_AcceptDeep == ~(\E i \in 1..Len(out) : out[i].r = "T" /\ Len(wire[out[i].v]) >
 W_CacheHit == ~(\E v \in Inst : Len(out) >= 2 /\ out[1].v = v /\ out[2].v = v /\ out[1].r = "T" /\ out[2].r = "T" /\ Len(wire[v]) = 1)
 W_Refused == ~(\E v \in Inst : inst[v].k = "refused")
 W_RejectOtherAnchor == ~(\E i \in 1..Len(out) : out[i].r = "F" /\ out[i].p = "P1" /\ inst[out[i].v].anchor = "RB" /\ W.q.dev = "none")
+W_HealedAccept == ~(\E i \in 1..Len(out) : \E j \in 1..Len(out) : i < j /\ out[i].p = out[j].p /\ out[i].v = out[j].v
+                                                                    /\ out[i].r = "F" /\ out[j].r = "T" /\ out[j].e = 1)
 W_TwoInFlight == ~(\A v \in Inst : val[v].k = "run" /\ val[v].pc = "fetching")
 =============================================================================
